@@ -42,9 +42,20 @@ fn write_record(mut w: impl Write, record: &Record) -> std::io::Result<()> {
     )
 }
 
+/// The TLS library dumps every ClientHello at the trace level, server name included, and the
+/// server name may carry the client's credentials: its records are accepted up to debug only.
+fn is_enabled(metadata: &Metadata) -> bool {
+    let max_level = if metadata.target().starts_with("rustls") {
+        std::cmp::min(log::max_level(), log::LevelFilter::Debug)
+    } else {
+        log::max_level()
+    };
+    metadata.level() <= max_level
+}
+
 impl Log for StdoutLogger {
     fn enabled(&self, metadata: &Metadata) -> bool {
-        metadata.level() <= log::max_level()
+        is_enabled(metadata)
     }
 
     fn log(&self, record: &Record) {
@@ -72,7 +83,7 @@ impl FileLogger {
 
 impl Log for FileLogger {
     fn enabled(&self, metadata: &Metadata) -> bool {
-        metadata.level() <= log::max_level()
+        is_enabled(metadata)
     }
 
     fn log(&self, record: &Record) {
